@@ -25,7 +25,8 @@ pub fn format_single(key: &str, text: &str, ext: &str) -> Result<String, String>
 pub fn format_update(key: &str, text: &str, ext: &str) -> Result<String, String> {
     dump::catch(|| {
         let mut g = Graph::new_with_options(MarkdownOptions { refs_extension: ext.to_string() });
-        g.update_key(Key::from_file_name(key), "# old\n\nold text\n");
+        // the replaced version has everything a note can have, front matter included: nothing of it may survive
+        g.update_key(Key::from_file_name(key), "---\nold: true\n---\n\n# old\n\nold text\n\n- old item\n\n| old |\n|---|\n| cell |\n");
         g.update_key(Key::from_file_name(key), text);
         g.to_markdown(&Key::from_file_name(key))
     })
